@@ -7,6 +7,7 @@ writes (ffi.new bodies are malloc'ed).
 import sys, os, struct
 from vlib import gen, core
 
+MEMCHECK_SAMPLE = 4
 RULE = ("case = (character type T in char/signed char/unsigned char/wchar_t/char16_t/char32_t, "
         "operation, string): round-trip new->string, string() with embedded zeros and maxlen on "
         "arrays and pointers, unpack(n), and assignment of a string to a fixed T[N] through "
